@@ -104,6 +104,25 @@ def read_memoize_init_form():
     return calls, " | ".join(base)
 
 
+def read_stateful_meta_form():
+    """`StatefulInterpretationMeta.__init__`: every assignment to `cls.registry` — its right-hand side
+    (ast.unparse) and whether it sits under a branch/loop.  A fresh registry per class, unconditionally."""
+    tree = ast.parse((REPO / "funsor" / "interpretations.py").read_text())
+    cls = next((n for n in tree.body if isinstance(n, ast.ClassDef) and n.name == "StatefulInterpretationMeta"), None)
+    fn = cls and next((n for n in cls.body if isinstance(n, ast.FunctionDef) and n.name == "__init__"), None)
+    if fn is None:
+        return ["<StatefulInterpretationMeta.__init__ not found>"]
+    out = []
+
+    def walk(node, nested):
+        for ch in ast.iter_child_nodes(node):
+            if isinstance(ch, ast.Assign) and any(ast.unparse(t) == "cls.registry" for t in ch.targets):
+                out.append(("branch: " if nested else "") + ast.unparse(ch.value))
+            walk(ch, nested or isinstance(ch, (ast.If, ast.For, ast.While, ast.Try, ast.With)))
+    walk(fn, False)
+    return out
+
+
 def read_live_tables():
     names = live_names()
     leaves, chains, total = [], OrderedDict(), []
@@ -159,6 +178,7 @@ def tables():
     live["adjoint"] = [k for k in PROBES + ["S"] if PROBE_CLASS[k] in adjoint_ops]
     live["apply_optimizer_with"], live["apply_optimizer_branches"] = read_entry_point_form()
     live["memoize_init_calls"], live["memoize_init_base"] = read_memoize_init_form()
+    live["stateful_registry"] = read_stateful_meta_form()
     return live
 
 
@@ -213,6 +233,10 @@ def applyOptimizerBranches : Nat := {live["apply_optimizer_branches"]}
     `self.base_interpretation` -/
 def memoizeInitCalls : List String := {lean_str_list(live["memoize_init_calls"])}
 def memoizeInitBase : String := "{live["memoize_init_base"]}"
+
+/-- `StatefulInterpretationMeta.__init__`: the right-hand side of every assignment to `cls.registry`
+    (prefixed "branch: " when it sits under an if/for/while/try/with) -/
+def statefulRegistryAssign : List String := {lean_str_list(live["stateful_registry"])}
 
 end FV.Gen.C17
 """
@@ -452,8 +476,8 @@ def static_ctx(ctor, cid):
     if ctor.startswith("prio:"):
         a, b = ctor[5:].split(",")
         return ("prioof", a, b)
-    if ctor == "Q":
-        return "Q"
+    if ctor in ("Q", "Shift", "Traced", "Other"):
+        return ctor
     if ctor == "tape":
         return "tape"       # AdjointTape captures `_old_interpretation` in __enter__
     raise ValueError(ctor)
@@ -664,7 +688,9 @@ def prog_entry_points(chain, kinds):
     return ("seq", body + [("obs",)])
 
 
-CTORS = ["memo:P", "memo:W", "memo:eager", "memo:lazy", "prio:P,lazy", "prio:P,W", "Q", "tape"]
+CTORS = ["memo:P", "memo:W", "memo:eager", "memo:lazy", "prio:P,lazy", "prio:P,W", "Q", "tape",
+         "Shift", "Traced", "Other", "memo:Shift"]
+HIER_CTX = ["Shift", "Traced", "Other"]
 
 
 def prog_prebuilt(s1, ctor, s2, kinds):
@@ -724,7 +750,7 @@ def random_prog(rng, depth, budget):
             r = rng.random()
             if d < depth and r < 0.50:
                 pre = [n for n in visible if n[0] == "@" and not (shared_open and n.endswith("T"))]
-                c = rng.choice(ALPHABET + ["P", "P", "W", "subst0", "tape", "memoize", "memoize", "memoS1", "memoS1", "memoS2"]
+                c = rng.choice(ALPHABET + HIER_CTX + ["P", "P", "W", "subst0", "tape", "memoize", "memoize", "memoS1", "memoS1", "memoS2"]
                                + ([] if shared_open else ["tapeR"] * 3) + pre * 3)
                 kind = "deco" if rng.random() < 0.3 else "with"
                 blk = (kind, c, ("seq", go(d + 1, shared_open or c == "tapeR" or c.endswith("T"), visible)))
@@ -732,7 +758,7 @@ def random_prog(rng, depth, budget):
             elif d < depth and r < 0.56:
                 # decorator form: decorate here, call later (under a different stack)
                 name = "f%d" % next(fresh)
-                items.append(("def", name, rng.choice(ALPHABET + ["P", "P", "W", "memoS1"]),
+                items.append(("def", name, rng.choice(ALPHABET + HIER_CTX + ["P", "P", "W", "memoS1"]),
                               ("seq", go(d + 1, True, visible))))
                 visible.append(name)
             elif r < 0.60:
@@ -1052,9 +1078,26 @@ def enumerate_prebuilt(ctx, chk, thorough):
         for s1 in chains[n1]:
             for s2 in chains[n2]:
                 # quick, depth sum 3: the constructors the seeded class needs (a partial base / partial parts)
-                ctors = CTORS if (thorough or n1 + n2 <= 2) else ["memo:P", "prio:P,W"]
+                ctors = CTORS if (thorough or n1 + n2 <= 1) else (
+                    ["memo:P", "prio:P,W", "Shift"] if n1 + n2 == 3 else CTORS[:8] + ["Shift"])
                 for ctor in ctors:
                     chk.add(prog_prebuilt(s1, ctor, s2, kinds_for(ctx.rng, n1 + n2)), "H:prebuilt-object")
+
+
+def enumerate_hierarchy(ctx, chk, D):
+    """family I: instances of the two-level StatefulInterpretation hierarchy Shift / Traced(Shift) / Other(Shift)
+    as contexts: every chain of depth <= D over the alphabet + the three that contains one of them, with the
+    probes for all three patterns (a, b, bin) at every position, leaving normally and by exception."""
+    rng = ctx.rng
+    alpha = ALPHABET + HIER_CTX
+    for k in range(1, D + 1):
+        for chain in itertools.product(alpha, repeat=k):
+            if not any(c in HIER_CTX for c in chain):
+                continue
+            chain = list(chain)
+            chk.add(prog_chain(chain, kinds_for(rng, k)), "I:stateful-hierarchy")
+            chk.add(prog_raise(chain, kinds_for(rng, k), rng.randrange(k), rng.choice(["raise", "a", "b", "bin"])),
+                    "I:stateful-hierarchy")
 
 
 def enumerate_reuse(ctx, chk):
@@ -1093,6 +1136,8 @@ def correspond(ctx, use_driver=True, volume=1):
                 "(H) PREBUILT interpretation objects (Memoize(P|W|eager|lazy), PrioritizedInterpretation(P, lazy|W), a StatefulInterpretation "
                 "instance, AdjointTape()) constructed inside every chain of depth <= 1 and, after that chain has exited, entered (with-block, "
                 "decorated call, with an exception, re-entered) inside every chain of depth <= 2 (thorough: both <= 2); "
+                "(I) a two-level StatefulInterpretation hierarchy Shift / Traced(Shift) / Other(Shift) (rules for a / b / bin), instances as contexts "
+                "(inline in every chain of depth <= 2 containing one, prebuilt, decorator), each class answering only its own table; "
                 "(G) library entry points that push interpretations internally — apply_optimizer(lazy term), reinterpret(lazy term), "
                 "forward_backward — called at the innermost position of every chain of depth <= 3 (thorough 4), also with a rule raising "
                 "inside apply_optimizer, and at the innermost position of every family-A chain; (F) memoize(cache=d) (explicit shared dict) in every chain of depth <= 3 containing it.  The SAME probe terms (token 1) are built at "
@@ -1113,6 +1158,7 @@ def correspond(ctx, use_driver=True, volume=1):
     enumerate_shared_cache(ctx, chk)
     enumerate_entry_points(ctx, chk, 3 if ctx.tier == "quick" else 4)
     enumerate_prebuilt(ctx, chk, ctx.tier != "quick")
+    enumerate_hierarchy(ctx, chk, 2 if ctx.tier == "quick" else 3)
     enumerate_decorate_call(ctx, chk, ctx.tier != "quick")
     ctx.exhaustive = True
     n_rand = (3000 if ctx.tier == "quick" else 40000) * volume
@@ -1141,6 +1187,7 @@ def search(ctx, broken):
     enumerate_all(ctx, chk, 3)
     enumerate_reuse(ctx, chk)
     enumerate_entry_points(ctx, chk, 2)
+    enumerate_hierarchy(ctx, chk, 2)
     chains1 = [[]] + [[c] for c in ALPHABET]
     for s1 in chains1:
         for s2 in chains1:
